@@ -1355,4 +1355,84 @@ pub mod verif {
             Box::pin(self.0.get_verified_headers_range(from, amount))
         }
     }
+
+    // C25 / C38: what `P2p::mocked` builds under cfg(test): a real `P2p` whose command
+    // channel, peer-tracker watch and header-sub channel are owned by the caller.
+    pub struct MockedP2p(pub(crate) Arc<P2p>);
+
+    pub struct MockedP2pHandle {
+        cmd_rx: mpsc::Receiver<P2pCmd>,
+        header_sub_tx: Option<mpsc::Sender<ExtendedHeader>>,
+        peer_tracker_tx: watch::Sender<PeerTrackerInfo>,
+    }
+
+    /// A command the component under test sent to the (absent) P2p worker.
+    pub enum MockedCmd {
+        HeaderEx(HeaderRequest, header_session::Responder),
+        /// `InitHeaderSub`; the channel is kept by the handle for `announce_new_head`.
+        InitHeaderSub(Box<ExtendedHeader>),
+        Other,
+    }
+
+    /// Needs a tokio runtime context for the dummy join handle.
+    pub fn mocked_p2p() -> (MockedP2p, MockedP2pHandle) {
+        let (cmd_tx, cmd_rx) = mpsc::channel(16);
+        let (peer_tracker_tx, peer_tracker_rx) = watch::channel(PeerTrackerInfo::default());
+        let p2p = P2p {
+            cmd_tx,
+            cancellation_token: CancellationToken::new(),
+            join_handle: spawn(async {}),
+            peer_tracker_info_watcher: peer_tracker_rx,
+            local_peer_id: PeerId::random(),
+        };
+        let handle = MockedP2pHandle {
+            cmd_rx,
+            header_sub_tx: None,
+            peer_tracker_tx,
+        };
+        (MockedP2p(Arc::new(p2p)), handle)
+    }
+
+    impl MockedP2pHandle {
+        pub fn set_peers(&self, connected: u64, trusted: u64) {
+            self.peer_tracker_tx.send_modify(|info| {
+                info.num_connected_peers = connected;
+                info.num_connected_trusted_peers = trusted;
+            });
+        }
+
+        /// false if header-sub is not initialised or its channel is full / closed
+        pub fn announce_new_head(&self, header: ExtendedHeader) -> bool {
+            match self.header_sub_tx {
+                Some(ref tx) => tx.try_send(header).is_ok(),
+                None => false,
+            }
+        }
+
+        fn convert(&mut self, cmd: P2pCmd) -> MockedCmd {
+            match cmd {
+                P2pCmd::HeaderExRequest {
+                    request,
+                    respond_to,
+                } => MockedCmd::HeaderEx(request, respond_to),
+                P2pCmd::InitHeaderSub { head, channel } => {
+                    self.header_sub_tx = Some(channel);
+                    MockedCmd::InitHeaderSub(head)
+                }
+                _ => MockedCmd::Other,
+            }
+        }
+
+        /// Next already queued command, if any.
+        pub fn try_next(&mut self) -> Option<MockedCmd> {
+            let cmd = self.cmd_rx.try_recv().ok()?;
+            Some(self.convert(cmd))
+        }
+
+        /// Wait for the next command (`None`: every sender is gone).
+        pub async fn next(&mut self) -> Option<MockedCmd> {
+            let cmd = self.cmd_rx.recv().await?;
+            Some(self.convert(cmd))
+        }
+    }
 }
